@@ -1249,6 +1249,12 @@ func (app *App) performSwitchover(clusterState map[string]*nodestate.NodeState, 
 		if err != nil {
 			return err
 		}
+		// turbo mode may have relaxed a replica: restore the settings and deregister it before the freeze,
+		// a node must never be promoted while it is optimizing
+		err = app.stopActiveNodeOptimization(oldMaster, activeNodes)
+		if err != nil {
+			return err
+		}
 	}
 
 	if switchover.MasterTransition != FailoverTransition {
